@@ -1,5 +1,5 @@
 """C12 — fixed-size hint, reset and the generator's error contract (structural clauses)."""
-from ..rules import generator as gen, piece, errflow, summary, beliefs, engine
+from ..rules import generator as gen, piece, errflow, summary, beliefs, engine, data
 
 EXPL = ("Decides, on the type-checked MIR of /repo: (1) SA-FIELDS: Generator::reset and BlockHashContext::reset give every field the "
         "same symbolic value as new(), except three reasoned exceptions each with a structural side condition (h_last only used under "
@@ -36,6 +36,7 @@ def run(ctx):
             ctx.guard("C12", "file", lambda: errflow.stream_and_file(ctx, prog))
         if not c.startswith("unsafe"):
             ctx.guard("C12", "piece", lambda: piece.piece_effects(ctx, prog))
+        ctx.guard("C12", "const values", lambda: data.const_census(ctx, prog, data.CONST_SCOPES["C12"], floor=1))
         ctx.guard("C12", "summaries", lambda: summary.check(ctx, prog, 'Generator::(new|set_fixed_input_size_in_usize)$|<internals::generate::Generator as core::default::Default|generate_easy', floor=2))
         ctx.guard("C12", "path summaries", lambda: summary.check_paths(ctx, prog, 'Generator::(new|set_fixed_input_size_in_usize)$|<internals::generate::Generator as core::default::Default|generate_easy', floor=0))
         if c in ("dbg", "unsafe_dbg", "strict_dbg"):
